@@ -47,6 +47,7 @@ def run_property(prop, tier, seed, configs=None, repo=None, selftest=True):
             "calls": sum(len(f.calls) for f in prog.fns.values()),
             "helpers_analysed_inside_their_callers": ["%s -> %s" % (h, c) for h, c in getattr(prog, "inlined", [])],
             "renames_recognised": ["%s = %s" % (n, o) for n, o in getattr(prog, "renamed", [])],
+            "combinator_chains_rewritten_in": list(getattr(prog, "desugared", [])),
         }
         if os.environ.get("RPX_FACTS_EPHEMERAL"):
             import shutil
